@@ -7,7 +7,7 @@ import os
 import random
 import subprocess
 
-from harness import core, findings, pool, pygrammar, tlc
+from harness import pycorpus, core, findings, pool, pygrammar, tlc
 
 PID = "C01"
 P = pygrammar.all_prods()
@@ -189,6 +189,10 @@ def universe(tier, rng, streams):
             cs = slots_of(c)
             g = srng.choice([g for g in names if fits(cs[0], g)]) if cs else ""
             scns.append(scenario(n, s, c, g, lay=srng.choice(pygrammar.LAYOUTS)))
+    # U4: the corpus - statements and embedded programs of CPython's own syntax tests (harness/pycorpus.py)
+    corpus = pycorpus.load()
+    for k, text, origin in corpus:
+        scns.append({"src": text, "mode": "exec", "origin": origin, "deriv": {"root": "Corpus", "slot": "", "child": "", "grand": "", "layout": k, "mode": "exec"}})
     seen, uniq = set(), []
     for s in scns:
         k = (s["src"], s["mode"])
@@ -303,7 +307,10 @@ def run(tier, seed, replay=None):
     if replay:
         payload = json.load(open(replay))["payload"]
         d = payload["trace"]["deriv"]
-        scns = [scenario(d["root"], d["slot"], d["child"], d["grand"], d["layout"], d["mode"])]
+        if d["root"] == "Corpus":
+            scns = [{"src": payload["trace"]["src"], "mode": "exec", "deriv": d}]
+        else:
+            scns = [scenario(d["root"], d["slot"], d["child"], d["grand"], d["layout"], d["mode"])]
     else:
         mc = tlc.model_check("PyGrammar", cfg_text=cfg_text, coverage=False, timeout=1800)
         r = tlc.model_check("PyGrammar", cfg_text=core.set_deviations(cfg_text, ["Dev_KnownDerivation"]), expect_ok=not (known["prods"] or known["pairs"]), coverage=False, timeout=1800)
@@ -336,8 +343,8 @@ def run(tier, seed, replay=None):
         "evaluations": len(out),
         "programs": len(python_ok),
         "disagreements_checked": sum(1 for t in python_ok if t["steps"][0]["obs"]["kind"] != "ok"),
-        "distinct_nontrivial": len({(t["src"], t["mode"]) for t in python_ok if t["deriv"]["slot"]}),
-        "rule": f"one case = a derivation of the Python 3.12 grammar tables ({len(P)} named productions: expressions incl. every operator, string prefix and f-string form; assignment targets; simple and compound statements incl. match and type parameters): a production alone (U1, every layout of 14: CRLF, tabs, 2/8-space indents, comments, blank lines, trailing blanks, continuations, form feed ...; exec/eval/single modes), every (parent, slot, child) nesting (U2; a seeded eighth of them in the quick tier) and depth-3 nestings x layouts from fixed random streams (U3), wrapped in the context its productions need (def / async def / loop / nested def); CPython's ast.parse decides membership (rejected texts are dropped), xonsh's parser - LALR table regenerated from the working tree - must accept, build the same tree after location-free normalisation (node kinds, every identifier field, constants by type and value, contexts, operators, arity and order) and the tree must compile; non-trivial = a nesting (not a production alone) CPython accepts; distinct by (text, mode)",
+        "distinct_nontrivial": len({(t["src"], t["mode"]) for t in python_ok if t["deriv"]["slot"] or t["deriv"]["root"] == "Corpus"}),
+        "rule": f"one case = a derivation of the Python 3.12 grammar tables ({len(P)} named productions: expressions incl. every operator, string prefix and f-string form; assignment targets; simple and compound statements incl. match and type parameters): a production alone (U1, every layout of 14: CRLF, tabs, 2/8-space indents, comments, blank lines, trailing blanks, continuations, form feed ...; exec/eval/single modes), every (parent, slot, child) nesting (U2; a seeded eighth of them in the quick tier) depth-3 nestings x layouts from fixed random streams (U3), and the corpus (U4: every statement at any depth, and every string constant that is itself a program, of the syntax-oriented files of CPython's own test suite as installed with the interpreter - test_grammar, test_patma, test_fstring, test_ast, test_unparse ... - about 19 000 texts, all of them in both tiers), the generated ones wrapped in the context its productions need (def / async def / loop / nested def); CPython's ast.parse decides membership (rejected texts are dropped), xonsh's parser - LALR table regenerated from the working tree - must accept, build the same tree after location-free normalisation (node kinds, every identifier field, constants by type and value, contexts, operators, arity and order) and the tree must compile; non-trivial = a nesting (not a production alone) or a corpus text CPython accepts; distinct by (text, mode)",
         "productions": len(P),
         "outcomes": kinds,
         "listed_findings": {k: len(known[k]) for k in ("prods", "layouts", "pairs", "triples")},
